@@ -17,7 +17,7 @@ from enc import cbool, crows, ctree, jsonable
 
 THEOREMS = ["C03_backtrack_sound", "C03_apply_with_options_sound", "C03_result_engine",
             "C03_iteration_programs_with_options_denote_their_specification",
-            "C03_join_backtrack_sound", "C03_join_with_options_sound",
+            "C03_join_backtrack_sound", "C03_join_with_options_sound", "C03_join_in_one_engine_sound",
             "C03_programs_over_both_engine_kinds_denote_their_specification"]
 HDR = "From DR Require Import Model.CheckBack.\nOpen Scope Z_scope.\n"
 
@@ -172,13 +172,17 @@ def make_programs(rng, n):
 
 
 def proj_below_dedup(tree):
-    """Number of (Deduplication node, Projection node somewhere in its operand) pairs: backtracking a projection
-    past a Deduplication (finding F2) is the only way a call adds one."""
-    n = 0
+    """The (Deduplication node, Projection somewhere in its operand) pairs of a tree, as a multiset of the projections'
+    column sets: backtracking a projection past a Deduplication (finding F2) is the only way a call adds a pair — a
+    new Projection node, or an existing one narrowed by merging with the moved one."""
+    from collections import Counter
+    out = Counter()
     for d in sg.subtrees(tree):
         if d[0] == "un" and d[1][0] == "dedup":
-            n += sum(1 for x in sg.subtrees(d[2]) if x[0] == "un" and x[1][0] == "proj")
-    return n
+            for x in sg.subtrees(d[2]):
+                if x[0] == "un" and x[1][0] == "proj":
+                    out[tuple(sorted(map(str, x[1][1])))] += 1
+    return out
 
 
 def signature(case):
@@ -186,7 +190,7 @@ def signature(case):
     errs = case.get("error") or ""
     t = case.get("impl_tree")
     if a[0] == "un" and a[1][0] == "proj" and a[2][1] and t and t[0] == "ok" \
-            and proj_below_dedup(t[1]) > proj_below_dedup(case["base_tree"]):
+            and proj_below_dedup(t[1]) - proj_below_dedup(case["base_tree"]):
         return "proj_commutes_past_dedup"
     if t and t[0] == "ok" and "syntax error" in errs and sg.nested_compound_operand(t[1]):
         return "nested_compound_operand"
